@@ -7,7 +7,7 @@ import casadi as ca
 from .. import oracles as O
 from ..caseval import Ev
 from ..groups import base_specs, product_specs, ProductSpec
-from .lie_common import (inplace_history, lib_call, euler_ok, algebra_corpus, run_contract_slice, configs_for_shard,
+from .lie_common import (inplace_history, sparse_param_form, lib_call, euler_ok, algebra_corpus, run_contract_slice, configs_for_shard,
                          algebra_switch_points, so3_of, parts_of)
 
 SHARDS = {"quick": 14, "thorough": 16}
@@ -33,6 +33,7 @@ def run(ctx):
         run_contract_slice(ctx, base_specs(), 40 if ctx.quick else 400, ops=("exp",))
     if ctx.shard == 1 % ctx.nshards:
         inplace_history(ctx, base_specs() + product_specs(cfg_rng, "quick")[:2], 4 if ctx.quick else 40, ops=("exp", "alg_to_Matrix"))
+        sparse_param_form(ctx, base_specs() + product_specs(cfg_rng, "quick")[:2], ops=("exp", "alg_to_Matrix"))
 
 
 def check_config(ctx, spec, N):
